@@ -34,31 +34,31 @@ func vfTier() int                         { panic("vf intrinsic") }
 func vfFn(name string, args ...int) int    { panic("vf intrinsic") }
 func vfPred(name string, args ...int) bool { panic("vf intrinsic") }
 
-func vfAnd(a, b bool) bool          { panic("vf intrinsic") }
-func vfOr(a, b bool) bool           { panic("vf intrinsic") }
-func vfImplies(a, b bool) bool      { panic("vf intrinsic") }
-func vfIte(c bool, a, b int) int    { panic("vf intrinsic") }
-func vfIteBool(c, a, b bool) bool   { panic("vf intrinsic") }
-func vfEq(a, b interface{}) bool    { panic("vf intrinsic") }
+func vfAnd(a, b bool) bool        { panic("vf intrinsic") }
+func vfOr(a, b bool) bool         { panic("vf intrinsic") }
+func vfImplies(a, b bool) bool    { panic("vf intrinsic") }
+func vfIte(c bool, a, b int) int  { panic("vf intrinsic") }
+func vfIteBool(c, a, b bool) bool { panic("vf intrinsic") }
+func vfEq(a, b interface{}) bool  { panic("vf intrinsic") }
 
 func vfSnapshot(roots ...interface{}) int   { panic("vf intrinsic") }
 func vfUnchanged(label string, snap int)    { panic("vf intrinsic") }
 func vfSameStorage(a, b interface{}) bool   { panic("vf intrinsic") }
 func vfLog(msg string, args ...interface{}) { panic("vf intrinsic") }
 
-func vfQuiesce()                 { panic("vf intrinsic") }
-func vfGoroutineID() int         { panic("vf intrinsic") }
-func vfSetMapOrder(mode int)     { panic("vf intrinsic") }
-func vfSetDelayBound(d int)      { panic("vf intrinsic") }
-func vfMemPoints(on bool)        { panic("vf intrinsic") }
-func vfNow() int64               { panic("vf intrinsic") }
-func vfPoint(id int)             { panic("vf intrinsic") }
-func vfLockHeld(lock interface{}) int { panic("vf intrinsic") }
-func vfMonitorWrites(lock interface{}, roots ...interface{}) { panic("vf intrinsic") }
+func vfQuiesce()                                                { panic("vf intrinsic") }
+func vfGoroutineID() int                                        { panic("vf intrinsic") }
+func vfSetMapOrder(mode int)                                    { panic("vf intrinsic") }
+func vfSetDelayBound(d int)                                     { panic("vf intrinsic") }
+func vfMemPoints(on bool)                                       { panic("vf intrinsic") }
+func vfNow() int64                                              { panic("vf intrinsic") }
+func vfPoint(id int)                                            { panic("vf intrinsic") }
+func vfLockHeld(lock interface{}) int                           { panic("vf intrinsic") }
+func vfMonitorWrites(lock interface{}, roots ...interface{})    { panic("vf intrinsic") }
 func vfMonitorResult() (badWrites, badReads, writes, reads int) { panic("vf intrinsic") }
 
 // instrumentation hooks (inserted by the engine's source instrumenter, see engine/gosym/instr.go)
-func vfSpawn() int { panic("vf intrinsic") }
-func vfEnter(g int) { panic("vf intrinsic") }
-func vfExit(g int)  { panic("vf intrinsic") }
+func vfSpawn() int            { panic("vf intrinsic") }
+func vfEnter(g int)           { panic("vf intrinsic") }
+func vfExit(g int)            { panic("vf intrinsic") }
 func vfSleep(d time.Duration) { panic("vf intrinsic") }
